@@ -229,4 +229,28 @@ theorem resize_refines (d : Deq α) (n : Nat) (x : α) (h : d.Inv) :
     have e2 : n - d.toList.length = 0 := by omega
     simp [e1, e2]
 
+theorem assign_refines (d rhs : Deq α) (h : d.Inv) :
+    (assign d rhs).Inv ∧ (assign d rhs).toList = rhs.toList ∧ (assign d rhs).blockSize = d.blockSize := by
+  obtain ⟨i, t, b⟩ := pushAll_refines rhs.toList d.clear (clear_refines d h).1
+  exact ⟨i, by rw [show assign d rhs = pushAll rhs.toList d.clear from rfl, t]; rfl, b⟩
+
+/-- the repaired `swap` exchanges the element sequences and keeps both invariants, whatever the block sizes -/
+theorem swapPair_refines (a b : Deq α) (ha : a.Inv) (hb : b.Inv) :
+    (swapPair a b).1.Inv ∧ (swapPair a b).2.Inv ∧ (swapPair a b).1.toList = b.toList ∧
+      (swapPair a b).2.toList = a.toList := by
+  unfold swapPair
+  by_cases he : a.blockSize = b.blockSize
+  · simp only [he, if_true]
+    refine ⟨?_, ?_, rfl, rfl⟩
+    · have : (swapInto a b) = { b with blockSize := a.blockSize } := rfl
+      rw [this, he]; exact hb
+    · have : (swapInto b a) = { a with blockSize := b.blockSize } := rfl
+      rw [this, ← he]; exact ha
+  · simp only [he, if_false]
+    obtain ⟨i1, t1, b1⟩ := assign_refines ({ blockSize := a.blockSize } : Deq α) b (inv_nil _ _ ha.1)
+    obtain ⟨i2, t2, _⟩ := assign_refines b a hb
+    refine ⟨?_, i2, t1, t2⟩
+    have hbs : (assign ({ blockSize := a.blockSize } : Deq α) b).blockSize = a.blockSize := b1
+    exact ⟨ha.1, by simpa [swapInto, hbs] using i1.2.1, by simpa [swapInto, hbs] using i1.2.2⟩
+
 end XalanModel.Containers.Deq
